@@ -350,8 +350,14 @@ def r5_gates(ctx, prog):
     pt = param_name(f, 2)
     cenv = {'isInitialised': 1, re.compile(r'getBooleanValue\(%s,CKA_PRIVATE,\w+\)' % obj): 1, re.compile(r'getBooleanValue\(%s,CKA_COPYABLE,\w+\)' % obj): 1,
             re.compile(r'%s\[\w+\]\.type' % pt): macro(prog, 'CKA_PRIVATE'), re.compile(r'%s\[\w+\]\.ulValueLen' % pt): 1, re.compile(r'\*%s\[\w+\]\.pValue' % pt): 0, param_name(f, 3): 1}
-    o = outcomes(f, prog, cenv, record={'createObject'}, cap=32, rounds=3)
-    looped = [oc for oc in o.outcomes if ':L' in oc['path']]
+    from rules.c16 import FactOutcomes
+    o = FactOutcomes(f, prog, cenv=cenv, record_calls={'createObject'})
+    o.FACT_RX = re.compile(r'^is\w*Private$')
+    o.CAP = 32
+    o.LOOP_ROUNDS = 3
+    o.go()
+    # when a helper reads the flag from the template its value is open: only the paths on which it is false (or fixed by the in-line scan) are downgrades
+    looped = [oc for oc in o.outcomes if (':L' in oc['path'] or any(e[0] == 'fact' and e[2] is False for e in oc['events'])) and not any(e[0] == 'fact' and e[2] is True for e in oc['events'])]
     bad = [oc for oc in looped if [e for e in oc['events'] if e[0] == 'call'] or may_succeed(oc)]
     site = 'privacy downgrade'
     if not looped:
